@@ -2,6 +2,7 @@
 //! simulated remotes over byte channels; serves C01 C02 C03 C04 C14 C20 (and C05 with a store).
 
 mod agentdef;
+mod cmdfault;
 mod oracle;
 mod persist;
 mod remote;
@@ -42,24 +43,50 @@ fn run_one(focus: Focus, len: usize, rng: &mut Rng, out: &mut CaseOut, reporting
     run_script(&cfg, &script, rng, out, reporting);
 }
 
+/// C14, fault part: the command channels the agent's commands travel on fail to open, fail while
+/// open, or are closed by the idle time-out (see `cmdfault`).
+fn run_fault_case(len: usize, rng: &mut Rng, out: &mut CaseOut) {
+    let mut g = Gen::new(rng);
+    let cfg = g.config(Focus::Commands);
+    let plan = g.fault_plan();
+    let script = g.fault_script(&cfg, len, &plan);
+    drop(g);
+    run_script_with(&cfg, &script, rng, out, false, Some(plan));
+}
+
 fn run_script(cfg: &script::Config, script: &[Step], rng: &mut Rng, out: &mut CaseOut, reporting: bool) {
+    run_script_with(cfg, script, rng, out, reporting, None)
+}
+
+fn run_script_with(cfg: &script::Config, script: &[Step], rng: &mut Rng, out: &mut CaseOut, reporting: bool, faults: Option<script::FaultPlan>) {
     // command targets: two lanes behind one remote host (they share a channel) and one local lane
-    let targets: Vec<(Option<String>, String, String)> = vec![
-        (Some("ws://hosta:9001".to_string()), "/t0".to_string(), "in".to_string()),
-        (Some("ws://hosta:9001".to_string()), "/t1".to_string(), "in".to_string()),
-        (None, "/t2".to_string(), "in".to_string()),
-    ];
+    let targets: Vec<(Option<String>, String, String)> = if faults.is_some() {
+        script::fault_targets()
+    } else {
+        vec![
+            (Some("ws://hosta:9001".to_string()), "/t0".to_string(), "in".to_string()),
+            (Some("ws://hosta:9001".to_string()), "/t1".to_string(), "in".to_string()),
+            (None, "/t2".to_string(), "in".to_string()),
+        ]
+    };
     let opts = run::Options {
         reporting,
         target_caps: vec![*rng.pick(&[4usize, 16, 64, 4096]), *rng.pick(&[8usize, 64, 4096])],
         target_pace: vec![remote::Pace { chunk: *rng.pick(&[1usize, 3, 64, 4096]), yields: *rng.pick(&[0u32, 2, 20]) }],
+        faults: faults.clone(),
         ..Default::default()
     };
     let obs = run::run_case::<StoreDisabled>(cfg, script, &opts, rng, None, targets.clone());
-    let (cmd_recv, cmd_superseded, shared) = oracle::check_agent_commands(&obs, &targets, out);
-    out.add("agent-commands-forwarded", cmd_recv);
-    out.add("agent-commands-superseded", cmd_superseded);
-    out.add("command-channels-shared-by-two-targets", shared);
+    if let Some(plan) = faults.as_ref() {
+        // the channels fail on purpose here: the rules of `check_agent_commands` (which assume targets
+        // that are always reachable) are replaced by those of `cmdfault`
+        cmdfault::check(&obs, &targets, plan, out);
+    } else {
+        let (cmd_recv, cmd_superseded, shared) = oracle::check_agent_commands(&obs, &targets, out);
+        out.add("agent-commands-forwarded", cmd_recv);
+        out.add("agent-commands-superseded", cmd_superseded);
+        out.add("command-channels-shared-by-two-targets", shared);
+    }
     if !obs.stuck.is_empty() {
         out.inconclusive(format!("stuck: {}", obs.stuck[0]));
     }
@@ -115,6 +142,13 @@ fn run_script(cfg: &script::Config, script: &[Step], rng: &mut Rng, out: &mut Ca
         for f in &obs.target_frames {
             eprintln!(" target-frame t={} ch={} key={} {}{} {:?}", f.ticket, f.target, f.key, f.node, f.lane, f.body);
         }
+        for e in &obs.link_events {
+            eprintln!(" link-event {e:?}");
+        }
+        if let Some(plan) = faults.as_ref() {
+            eprintln!(" fault plan: {plan:?}");
+            eprintln!(" settles: {:?}", obs.settles);
+        }
         eprintln!(" sent by agent: {:?}", obs.rec.sent);
         eprintln!(" value history: {:?}", obs.rec.value_hist);
         eprintln!(" map history: {:?}", obs.rec.map_hist);
@@ -143,6 +177,35 @@ fn main() {
             cfg.cap_in = vec![4096; 3];
             cfg.jitter_per_mille = 0;
             let c = |r: usize, l: &str, b: &str| Step::Command(r, l.to_string(), b.to_string());
+            if which == 8 {
+                // command-channel faults: transient error + delayed retry, idle time-out, closed reader
+                let plan = script::FaultPlan {
+                    keys: ["\"hosta\"", "\"hostb\"", "\"/t2\"", "\"/t4\""].iter().map(|s| s.to_string()).collect(),
+                    target_keys: vec![0, 0, 2, 1, 3],
+                    answers: vec![vec![script::OpenAnswer::Transient, script::OpenAnswer::Ok], vec![], vec![script::OpenAnswer::Fatal], vec![]],
+                    retry: script::RetrySpec::Interval(3_000, 1),
+                    timeout_ms: script::FAULT_TIMEOUT_MS,
+                };
+                let send = |id: u64, target: u32, v: u64| c(0, "cmd", &format!("@cmd{{id:{id},acts:{{@send{{target:{target},v:{v},mode:2}},@send{{target:2,v:{},mode:2}}}}}}", v + 100));
+                let script = vec![
+                    Step::Attach(0),
+                    send(1, 0, 1),
+                    Step::Settle,
+                    send(2, 0, 2),
+                    Step::Idle(4_000),
+                    send(3, 0, 3),
+                    Step::Idle(61_000),
+                    send(4, 0, 4),
+                    Step::Settle,
+                    Step::CloseTargetReader(0),
+                    send(5, 0, 5),
+                    Step::Settle,
+                    send(6, 0, 6),
+                    Step::Settle,
+                ];
+                run_script_with(&cfg, &script, rng, out, false, Some(plan));
+                return;
+            }
             let script = match which {
                 1 => vec![Step::Attach(0), Step::Sync(0, "m3".into()), Step::Settle, c(0, "cmd", "@cmd{id:1,acts:{@clr{lane:2}}}"), Step::Settle, Step::Sync(0, "m3".into()), Step::Settle],
                 2 => vec![Step::Attach(0), Step::Sync(0, "m1".into()), Step::Settle, c(0, "m1", "@remove(key:k2)"), Step::Settle, Step::Sync(0, "m1".into()), Step::Settle],
@@ -194,6 +257,19 @@ fn main() {
             |_i, rng, out| {
                 let len = rng.range(8, len_max) as usize;
                 run_one(focus, len, rng, out, prop == "C20");
+            },
+        );
+    }
+    if prop == "C14" && only.as_ref().map_or(true, |o| "agent-command-fault-conversations".starts_with(o.as_str())) {
+        let n = (total / 10).max(1);
+        s.part(
+            "agent-command-fault-conversations",
+            "seeded conversation whose handlers send commands (send_command, Commander::send, send_queued) to 5 targets behind 4 command channels (two remote hosts, two local lanes) while the harness makes one or two of the channels fail: the open request is answered with a fatal error, with transient errors (within / beyond the configured retry budget: none, immediate, delayed), or dropped; readers of open channels are closed (also under a queued burst behind a stalled target); targets sit idle beyond the channel time-out (virtual time) and are used again; non-trivial when >= 4 frames were received; distinct by the schedule signature",
+            false,
+            n,
+            |_i, rng, out| {
+                let len = rng.range(8, len_max) as usize;
+                run_fault_case(len, rng, out);
             },
         );
     }
